@@ -63,7 +63,7 @@ func (w *world) afterTx(c *xchain, in *intent, out *txOutcome) {
 		w.afterAck(c, in, out)
 	case "update":
 		w.afterUpdate(c, in, out)
-	case "tsssend", "tssrecv", "tssack":
+	case "tsssend", "tssrecv", "tssack", "tssupdate":
 		w.afterTSS(c, in, out)
 	default:
 		w.afterExt(c, in, out)
@@ -720,7 +720,7 @@ var _ = big.NewInt
 // governance) are compared against "no tracked balance moves" unless their handler says otherwise.
 func (w *world) resync(c *xchain, in *intent, out *txOutcome) {
 	switch in.kind {
-	case "send", "recv", "ack", "update", "tsssend", "tssrecv", "tssack":
+	case "send", "recv", "ack", "update", "tsssend", "tssrecv", "tssack", "tssupdate":
 		return
 	}
 	if out.ok && !in.movesValue {
